@@ -46,7 +46,7 @@ def build_model():
         for f in sorted(fs):
             if f.endswith('.v'):
                 h.update(open(os.path.join(d, f), 'rb').read())
-    for f in ('driver.ml', 'big.ml', 'util.ml', 'pure.ml', 'build.sh'):
+    for f in ('driver.ml', 'big.ml', 'util.ml', 'pure.ml', 'orc.ml', 'build.sh'):
         h.update(open(os.path.join(ROOT, 'ocaml', f), 'rb').read())
     dig = h.hexdigest()
     if not (os.path.exists(exe) and os.path.exists(stamp) and open(stamp).read() == dig):
